@@ -66,6 +66,12 @@ def run_c01(spec, ctx):
     problems, vrs = synth.check_layout(r['buf'], sul.get('vrl', 8192), cfg)
     viol = [Violation(f"layout/{k}/e2e", d) for k, d in problems]
     nontriv = False
+    if not spec['lfs']:
+        labels.append('label-only')
+        nontriv = True
+        if len(r['buf']) != 80:
+            viol.append(Violation("layout/label-only-file-size/e2e", f"{len(r['buf'])} bytes for a storage unit without "
+                                                                     f"logical files (80 expected)"))
     if vrs:
         multi = any(s.succ for vr in vrs for s in vr.segments)
         padded = any(s.pad for vr in vrs for s in vr.segments)
